@@ -303,6 +303,10 @@ type ErrEv struct {
 	Dropped  bool      // no referrer at all / assigned to blank
 	Filtered []string  // benign filters applied before the nil test (IgnoreNotFound, ...)
 	Preds    []string  // error predicates consulted (IsNotFound, IsConflict, ...)
+	// PredTrue: the edges on which a predicate of the unfiltered error holds
+	// ("errors.IsNotFound" -> edges); the explicit form of a filter:
+	// `err != nil && !kerrors.IsNotFound(err)` is resource.IgnoreNotFound(err) != nil
+	PredTrue map[string][]Edge
 	Other    []string  // other uses (passed to event/condition constructors, ...)
 }
 
@@ -496,6 +500,13 @@ func ErrEvents(c ssa.CallInstruction) *ErrEv {
 				short := ShortCallee(name)
 				if strings.HasPrefix(short, "errors.Is") || strings.HasPrefix(short, "meta.IsNoMatch") || strings.Contains(short, ".Is") {
 					ev.Preds = append(ev.Preds, short)
+					if !filtered {
+						if ev.PredTrue == nil {
+							ev.PredTrue = map[string][]Edge{}
+						}
+						pt, _ := CallCondEdges(r)
+						ev.PredTrue[short] = append(ev.PredTrue[short], withVia(pt, via)...)
+					}
 					continue
 				}
 				ev.Other = append(ev.Other, "arg of "+short)
@@ -548,6 +559,28 @@ func filterTag(tag string, call ssa.CallInstruction) string {
 // the nil edges of its error when no filter other than the named ones was
 // applied before the test, otherwise only the nil edges of the unfiltered error.
 func (e *ErrEv) StrictOK(allow ...string) []Edge {
+	// an allowed filter may also be spelled out as a predicate test
+	var extra []Edge
+	for _, a := range allow {
+		switch a {
+		case "IgnoreNotFound", "Ignore(IsNotFound)":
+			extra = append(extra, e.PredTrue["errors.IsNotFound"]...)
+		case "IgnoreAlreadyExists", "Ignore(IsAlreadyExists)":
+			extra = append(extra, e.PredTrue["errors.IsAlreadyExists"]...)
+		case "Ignore(IsNoMatchError)":
+			extra = append(extra, e.PredTrue["meta.IsNoMatchError"]...)
+		case "Ignore(IsNotAllowed)":
+			extra = append(extra, e.PredTrue["resource.IsNotAllowed"]...)
+		}
+	}
+	if len(extra) > 0 {
+		base := e.strictOK(allow...)
+		return append(append([]Edge{}, base...), extra...)
+	}
+	return e.strictOK(allow...)
+}
+
+func (e *ErrEv) strictOK(allow ...string) []Edge {
 	for _, f := range e.Filtered {
 		ok := false
 		for _, a := range allow {
